@@ -89,8 +89,8 @@ func c05SyncPair(src, dst *c05Dev) error {
 
 func TestVerif_C05_Distribution(t *testing.T) {
 	acct := vacct.Get("C05")
-	vacct.RapidCheck(t, vacct.N(10, 500), func(rt *rapid.T) {
-		kind := rapid.SampledFrom([]string{"multimember", "multimember", "contact", "account"}).Draw(rt, "kind")
+	vacct.RapidCheck(t, vacct.N(14, 500), func(rt *rapid.T) {
+		kind := rapid.SampledFrom([]string{"multimember", "multimember", "contact", "contact", "account"}).Draw(rt, "kind")
 		var devs []*c05Dev
 		var reps []*vReplica
 		defer func() {
@@ -157,14 +157,26 @@ func TestVerif_C05_Distribution(t *testing.T) {
 				plan = append(plan, c05Step{Kind: "sync", A: rapid.IntRange(0, len(devs)-1).Draw(rt, "from"), B: rapid.IntRange(0, len(devs)-1).Draw(rt, "to")})
 			}
 			plan = append(plan, c05Step{Kind: "activate", A: i})
+			// what the device wrote while activating reaches another replica at once in half of the cases: that one may
+			// not be active yet and then finds these entries already in its log when it activates (catch-up path)
+			if len(devs) > 1 && rapid.Bool().Draw(rt, "push-after-activation") {
+				to := rapid.IntRange(0, len(devs)-2).Draw(rt, "push-to")
+				if to >= i {
+					to++
+				}
+				plan = append(plan, c05Step{Kind: "sync", A: i, B: to})
+			}
 		}
 		var trace []string
-		aloneAtActivation, lateSecondDevice := false, false
+		aloneAtActivation, lateSecondDevice, entriesBeforeActivation := false, false, false
 		for _, st := range plan {
 			switch st.Kind {
 			case "sync":
 				if st.A == st.B {
 					continue
+				}
+				if devs[st.A].active && !devs[st.B].active {
+					entriesBeforeActivation = true
 				}
 				if err := c05SyncPair(devs[st.A], devs[st.B]); err != nil {
 					rt.Fatalf("harness: %v", err)
@@ -253,10 +265,10 @@ func TestVerif_C05_Distribution(t *testing.T) {
 				}
 			}
 		}
-		nt := aloneAtActivation || lateSecondDevice
+		nt := aloneAtActivation || lateSecondDevice || entriesBeforeActivation
 		acct.Case(nt, kind+"|"+strings.Join(trace, ","), func() any {
 			return map[string]any{"kind": "distribution", "group": kind, "devices": len(devs), "plan": trace}
-		}, "distribution", "distribution/"+kind, lbl07(aloneAtActivation, "distribution/activated-before-seeing-anyone"), lbl07(lateSecondDevice, "distribution/second-device-after-secrets"))
+		}, "distribution", "distribution/"+kind, lbl07(aloneAtActivation, "distribution/activated-before-seeing-anyone"), lbl07(lateSecondDevice, "distribution/second-device-after-secrets"), lbl07(entriesBeforeActivation, "distribution/entries-received-before-activation"), lbl07(entriesBeforeActivation && kind == "contact", "distribution/contact-entries-before-activation"))
 	})
 }
 
